@@ -24,7 +24,7 @@ St0(tr) == [claimed |-> {}, cur |-> [w \in 0..tr.P |-> Idle], consulted |-> {}, 
             stopped |-> FALSE]
 
 \* CPython's chunk size for this pool size and task count
-ChunkSizeOK(tr) == tr.mode = "serial" \/
+ChunkSizeOK(tr) == tr.mode \in {"serial", "real"} \/
   tr.CS = (LET q == tr.T \div (4 * tr.P) IN IF tr.T % (4 * tr.P) = 0 THEN q ELSE q + 1)
 
 \* one event: returns <<new state, error-or-"">>
